@@ -692,7 +692,10 @@ def enum_exprs(L, T, d, _memo=None):
             if k not in seen:
                 seen.add(k); res.append((e, t))
         for (e, ty) in prev:
-            for U in L.subs(ty, strict=True):
+            # sub-type filters: every proper sub-type, and the static type itself when it has sub-types two or more levels
+            # below it (a filter that must keep instances of indirect sub-types; `e[T]` with T the type of e is legal MAL)
+            deep = any(L.is_sub(V, U_) and V != U_ for U_ in L.subs(ty, strict=True) for V in L.subs(U_, strict=True))
+            for U in L.subs(ty, strict=not deep):
                 add(["s", U, e], U)
         for (l, tl) in prev:
             for (r, tr) in enum_exprs(L, tl, d - 1, _memo):
@@ -723,7 +726,7 @@ def rand_expr(L, T, d, rnd):
         if op == "s":
             e, ty = rand_expr(L, T, d - 1, rnd)
             if e is None: continue
-            subs = L.subs(ty, strict=True) or [ty]
+            subs = (L.subs(ty, strict=True) + ([ty] if rnd.random() < 0.25 else [])) or [ty]
             U = rnd.choice(subs)
             return ["s", U, e], U
         l, tl = rand_expr(L, T, d - 1, rnd)
